@@ -80,6 +80,18 @@ def run_property(pid: str, tier: str, seed: int, replay: str | None) -> int:
                          "correspondence budget escalated" % (last[-1][:600] if last else out.strip().split("\n")[-1][:300]))
         os.environ["VERIF_ESCALATE"] = "1"
 
+    # 1b. source fingerprint: when an anchored file differs from the committed fingerprint (someone changed the code the
+    # property rests on) the quick tier of this run gets a larger case budget (bounded, lib.Ctx.n); never an alarm by itself
+    try:
+        import covlib
+        fp_changed = covlib.fingerprint_changed(pid)
+    except Exception:  # noqa: BLE001
+        fp_changed = []
+    if fp_changed and tier == "quick" and not replay and os.environ.get("VERIF_NO_ESCALATE") != "1":
+        os.environ["VERIF_ESCALATE"] = "1"
+        ctx.note("anchored source differs from the committed fingerprint (%s): quick case budgets raised for this run (at most 6x, "
+                 "never beyond the thorough budget)" % ", ".join(fp_changed)[:600])
+
     # 2. build: driver first (needed for correspondence), then the property theorems
     rc, out = lib.lake_build(["drv"])
     if rc != 0:
@@ -121,7 +133,8 @@ def run_property(pid: str, tier: str, seed: int, replay: str | None) -> int:
             print("implementation:", impl)
             print("model         :", model)
             print("oracle        :", orc if orc else "holds / none")
-            bad = impl != model or bool(orc)
+            cn = getattr(mod, "canon", None)
+            bad = (cn(op, impl) if cn else impl) != (cn(op, model) if cn else model) or bool(orc)
             if bad:
                 print("VIOLATION property=%s replay=%s" % (pid, replay))
             return 1 if bad else 0
@@ -147,6 +160,7 @@ def run_property(pid: str, tier: str, seed: int, replay: str | None) -> int:
     model_out = lib.run_driver([o[0] for o in ops])
 
     has_oracle = hasattr(mod, "oracle")
+    canon = getattr(mod, "canon", None)
     diffs = []
     for (op, impl, kind), mo in zip(ops, model_out):
         ctx.kind_hist[kind] = ctx.kind_hist.get(kind, 0) + 1
@@ -157,7 +171,9 @@ def run_property(pid: str, tier: str, seed: int, replay: str | None) -> int:
             n_oracle_checked += 1
             if why:
                 ctx.violation(why, op, expected="property holds on the implementation", observed=impl, kind="oracle")
-        if impl != mo:
+        # optional canonicalisation of both answers before they are compared (what the property does not speak about, e.g.
+        # WHICH rule rejected a transaction, must not raise an alarm)
+        if (canon(op, impl) if canon else impl) != (canon(op, mo) if canon else mo):
             diffs.append((op, impl, mo))
 
     # 5. broken correspondence: search the neighbourhood for an input on which the property itself fails
@@ -231,6 +247,14 @@ def run_property(pid: str, tier: str, seed: int, replay: str | None) -> int:
             ctx.note("leanchecker failed: " + cout[-500:])
             raise Infra("leanchecker failed: " + cout[-1000:])
 
+    try:
+        import covlib
+        cov = covlib.summary(pid, os.environ.get("VERIF_COV_DIR"))
+        if cov:
+            ctx.extra_cov["anchored_lines"] = cov
+    except Exception as e:  # measurement only: never affects the verdict
+        ctx.note("anchored-line coverage unavailable: %r" % (e,))
+
     distinct_nt = len({o[0] for o in ops if not getattr(mod, "trivial", lambda _op: False)(o[0])})
     rnd = lib.random.Random(seed)
     samples = [{"op": o[0][:300], "impl": o[1][:300]} for o in rnd.sample(ops, min(5, len(ops)))]
@@ -278,9 +302,15 @@ def main() -> int:
     ap = argparse.ArgumentParser()
     ap.add_argument("pid", nargs="?")
     ap.add_argument("--setup", action="store_true")
+    ap.add_argument("--fingerprint", action="store_true", help="rewrite fingerprints/*.json from the current tree of pycoin")
     ap.add_argument("--tier", default=os.environ.get("VERIF_TIER") or "quick")
     ap.add_argument("--replay")
     a = ap.parse_args()
+    if a.fingerprint:
+        import covlib
+        covlib.write_fingerprints()
+        print("fingerprints written")
+        return 0
     if a.setup:
         return setup()
     if not a.pid:
